@@ -120,10 +120,21 @@ func RenderSlot(s ResSlot, partials bool) string {
 	for _, k := range sortedKeys(s.Annots) {
 		ann = append(ann, [2]string{k, s.Annots[k]})
 	}
-	if len(ann) > 0 {
+	if len(ann) > 0 || s.Style == "embedded" {
 		w("  annotations:")
 		for _, a := range ann {
 			w("    %s: %q", a[0], a[1])
+		}
+		if s.Style == "embedded" {
+			// a multi-line string that itself holds a YAML stream and a PEM header: lines that merely contain "---"
+			// inside a scalar are content, not document separators
+			w("    verif/embedded: |")
+			w("      first: doc")
+			w("      ---")
+			w("      second: doc")
+			w("      --- ")
+			w("      -----BEGIN CERTIFICATE-----")
+			w("      last: line")
 		}
 	}
 	img := s.Image
